@@ -355,7 +355,7 @@ class _Cb:
                 f = self.file_of(v.args[0], env)
                 ln = 'len' + str(sum(1 for x in env.values() if x[1] == 'num'))
                 e2 = dict(env); e2[f'len({tgt})'] = (ln, 'num', frozenset())
-                return (f'{ind}(match o.readLen st {f} with\n{ind}| .error e => ((st, badIds), some e)\n{ind}| .ok {ln} =>\n'
+                return (f'{ind}(match o.readLen st {f} with\n{ind}| .error e => ((st, []), some e)\n{ind}| .ok {ln} =>\n'
                         + self.emit(rest, e2, ind + '  ') + ')')
             if isinstance(v, ast.Call) and _u(v.func) == 'os.path.join':
                 e2 = dict(env); e2[tgt] = (self.file_of(v, env), 'file')
@@ -379,7 +379,7 @@ class _Cb:
             fn = _u(c.func)
             if fn in ('os.remove', 'os.unlink') and len(c.args) == 1 and not c.keywords:
                 f = self.file_of(c.args[0], env)
-                return f'{ind}(cbBind (o.remove st {f}) badIds fun st =>\n' + self.emit(rest, env, ind + '  ') + ')'
+                return f'{ind}(cbBind (o.remove st {f}) [] fun st =>\n' + self.emit(rest, env, ind + '  ') + ')'
             if fn == self.acc + '.append' and len(c.args) == 1 and not c.keywords:
                 a = c.args[0]
                 if not (isinstance(a, ast.Name) and env.get(a.id, (0, 0))[1] == 'id'):
@@ -598,6 +598,57 @@ def a_deleteAllRemoves(T):
     return 'true' if _u(c.args[0]) == 'self.location' and len(c.args) == 1 and not any(k.arg == 'ignore_errors' for k in c.keywords) else 'false'
 
 
+# ================================================================================================ Crop.__init__ / load_crops
+def _init_sync_if(T):
+    f = find(T['cropping'], ['Crop', '__init__'])
+    ifs = [n for n in f.body if isinstance(n, ast.If) and
+           any(isinstance(c, ast.Call) and _u(c.func) == 'self._sync_info_from_disk' for b in n.body for c in ast.walk(b))]
+    i = one(ifs, 'the statement that loads the settings at construction')
+    if i.orelse or len(i.body) != 1 or _u(i.body[0]) != 'self._sync_info_from_disk()': raise NotFound('shape of the autoload statement')
+    # nothing else is read from the crop directory when the object is made (the function is loaded on demand)
+    for n in ast.walk(f):
+        if isinstance(n, ast.Call) and _u(n.func) in ('self.load_function', 'self.load_info', 'read_from_disk', 'from_pickle') :
+            raise NotFound('the constructor reads more than the settings')
+    return f, i
+
+
+def a_initAutoload(T):
+    """`Crop.__init__`: the settings are read from disk exactly when this test holds"""
+    from pyexpr2lean import translate
+    f, i = _init_sync_if(T)
+    return translate(i.test, {'autoload': ('autoload', 'bool'), 'self.is_prepared()': ('isPrepared', 'bool')}, 'bool')
+
+
+def a_initAutoloadDefault(T):
+    f, i = _init_sync_if(T)
+    a = f.args
+    kn = [x.arg for x in a.kwonlyargs]
+    names = [x.arg for x in a.args]
+    if 'autoload' in kn: d = a.kw_defaults[kn.index('autoload')]
+    elif 'autoload' in names:
+        k = names.index('autoload') - (len(names) - len(a.defaults))
+        if k < 0: raise NotFound('autoload has no default')
+        d = a.defaults[k]
+    else: raise NotFound('no autoload parameter')
+    if isinstance(d, ast.Constant) and isinstance(d.value, bool): return 'true' if d.value else 'false'
+    raise Untranslatable('default of autoload')
+
+
+def a_loadCropsAutoloads(T):
+    """`load_crops(directory)`: every crop found is made by `Crop(name=<name>, …)` with autoload left at its default (or True),
+    for the names of the sub-directories matching `^\\.xyz-(.+)`"""
+    f = one([n for n in T['cropping'].body if isinstance(n, ast.FunctionDef) and n.name == 'load_crops'], 'load_crops')
+    calls = [n for n in ast.walk(f) if isinstance(n, ast.Call) and _u(n.func) == 'Crop']
+    c = one(calls, 'Crop(...) in load_crops')
+    kw = {k.arg: k.value for k in c.keywords}
+    if c.args or 'name' not in kw: raise NotFound('Crop call shape')
+    al = kw.get('autoload')
+    ok_auto = al is None or (isinstance(al, ast.Constant) and al.value is True)
+    rgx = [n for n in ast.walk(f) if isinstance(n, ast.Call) and _u(n.func) == 're.compile' and n.args and isinstance(n.args[0], ast.Constant)]
+    r = one(rgx, 'pattern of crop folders')
+    return 'true' if ok_auto and r.args[0].value == '^\\.xyz-(.+)' and set(kw) <= {'name', 'parent_dir', 'autoload'} else 'false'
+
+
 _FOPS = '{S E : Type} (o : FileOps S E) (st : S) : S × Option E'
 ANCHORS = [
     ('writeToDisk', _FOPS, _file_sk('write_to_disk')),
@@ -606,4 +657,7 @@ ANCHORS = [
     ('reapDispatch', '(farmer : Farmer) (wait sync : Bool) (overwrite cleanUp : Option Bool) (allowIncomplete : Bool) : ReapCall', a_reapDispatch),
     ('reapDefaults', ': Bool × Bool × Option Bool × Option Bool × Bool', a_reapDefaults),
     ('deleteAllRemoves', ': Bool', a_deleteAllRemoves),
+    ('initAutoload', '(autoload isPrepared : Bool) : Bool', a_initAutoload),
+    ('initAutoloadDefault', ': Bool', a_initAutoloadDefault),
+    ('loadCropsAutoloads', ': Bool', a_loadCropsAutoloads),
 ]
